@@ -70,7 +70,8 @@ def decEv (j : Json) : R (Ev Int Int) := do
   match (← asStr (← fld j "ev")) with
   | "write" => .ok (.write (← asStr (← fld j "path")) (← asInt (← fld j "content")) (← asBool (fldD j "statable" (Json.bool true))))
   | "remove" => .ok (.remove (← asStr (← fld j "path")))
-  | "load" => .ok (.load (← asStr (← fld j "path")) (← asInt (← fld j "args")))
+  | "setwd" => .ok (.setwd (← asStr (← fld j "wd")))
+  | "load" => .ok (.load (← asStr (← fld j "name")) (← asInt (← fld j "args")))
   | e => .error s!"event {e}"
 
 def encAns (a : Option (Option (Int × Int))) : Json :=
@@ -79,24 +80,31 @@ def encAns (a : Option (Option (Int × Int))) : Json :=
   | some none => Json.str "OSError"
   | some (some (x, y)) => Json.arr #[ofInt x, ofInt y]
 
-/-- the unrepaired loader over a history (for labelling what the implementation does) -/
-def runStale (f : Int → Int → Int × Int) : FS Int → Nat → Cache Int (Int × Int) → List (Ev Int Int) →
+/-- a loader variant over a history (for labelling what the implementation does) -/
+def runWith (ld : Cache Int (Int × Int) → FS Int → String → String → Int →
+      Option (Int × Int) × Cache Int (Int × Int)) :
+    FS Int → Nat → String → Cache Int (Int × Int) → List (Ev Int Int) →
     List (Option (Option (Int × Int)))
-  | _, _, _, [] => []
-  | fs, clk, c, .write p x _ :: es =>
-    none :: runStale f (fun q => if q = p then some ⟨some clk, x⟩ else fs q) (clk + 1) c es
-  | fs, clk, c, .remove p :: es => none :: runStale f (fun q => if q = p then none else fs q) clk c es
-  | fs, clk, c, .load p a :: es =>
-    let r := memoLoadStale f c fs p a
-    some r.1 :: runStale f fs clk r.2 es
+  | _, _, _, _, [] => []
+  | fs, clk, wd, c, .write p x _ :: es =>
+    none :: runWith ld (fun q => if q = p then some ⟨some clk, x⟩ else fs q) (clk + 1) wd c es
+  | fs, clk, wd, c, .remove p :: es =>
+    none :: runWith ld (fun q => if q = p then none else fs q) clk wd c es
+  | fs, clk, _, c, .setwd d :: es => none :: runWith ld fs clk d c es
+  | fs, clk, wd, c, .load n a :: es =>
+    let r := ld c fs n (resolvePath wd n) a
+    some r.1 :: runWith ld fs clk wd r.2 es
 
 def handleMemo (j : Json) : R Json := do
   let evs ← asList decEv (← fld j "events")
   let f : Int → Int → Int × Int := fun a c => (a, c)
   let evict : Cache Int (Int × Int) → Cache Int (Int × Int) := fun c => c.take 128
-  .ok (obj [("model", ofList encAns (run f evict World.init evs)),
-            ("spec", ofList encAns (runSpec f evict World.init evs)),
-            ("stale", ofList encAns (runStale f (fun _ => none) 1 [] evs))])
+  .ok (obj [("model", ofList encAns (run resolvePath f evict World.init evs)),
+            ("spec", ofList encAns (runSpec resolvePath f evict World.init evs)),
+            ("stale", ofList encAns (runWith (memoLoadStale f) (fun _ => none) 1 "" [] evs)),
+            ("unresolved", ofList encAns (runWith
+              (fun c fs n r a => memoLoadUnresolvedIdent f c fs (resolvePath "" n) r a)
+              (fun _ => none) 1 "" [] evs))])
 
 def handleText (j : Json) : R Json := do
   let lines ← asList asStr (← fld j "lines")
